@@ -25,10 +25,12 @@
 package main
 
 import (
+	"bytes"
 	"encoding/hex"
 	"fmt"
 	"net/url"
 	"runtime/debug"
+	"unicode/utf8"
 
 	"github.com/ipfs/go-cid"
 	"github.com/ipfs/go-datastore"
@@ -72,10 +74,14 @@ type replayT struct {
 	KeyPriv string `json:"privkey_hex,omitempty"`
 	KeyType string `json:"key_type,omitempty"`
 	Topic   string `json:"topic,omitempty"`
-	Root    string `json:"root,omitempty"`
-	Expect  string `json:"expect,omitempty"`
-	Sig     string `json:"signature,omitempty"`
-	Note    string `json:"note,omitempty"`
+	// size: topic of this many bytes built by topicOfLen (when too long to spell out)
+	TopicLen int `json:"topic_len,omitempty"`
+	// size: topic bytes in hex (topics that JSON text cannot carry)
+	TopicHex string `json:"topic_hex,omitempty"`
+	Root     string `json:"root,omitempty"`
+	Expect   string `json:"expect,omitempty"`
+	Sig      string `json:"signature,omitempty"`
+	Note     string `json:"note,omitempty"`
 	// ipnisync.NewSync option set of the client ("" = default)
 	ClientOpt string `json:"client_options,omitempty"`
 	// pubsched: the publisher's roots and the schedule of SetRoot / head requests
@@ -102,6 +108,14 @@ func main() {
 	c.Family("both", []string{"From Lib Require Import Cid SymCrypto.", "From Model Require Import C03_SignedHead Compose_C03_C01."}, "both_case_ok", 150)
 
 	pool = keypool.New(c.Rng.Fork("pool"), 3)
+	// larger RSA keys (their signed heads exceed 1 KiB); cached on disk, deterministic for the seed
+	for _, bits := range []int{3072, 4096} {
+		k, err := keypool.BigRSA(c.Rng.Fork("pool"), bits, keyCacheDir())
+		if err != nil {
+			panic(err)
+		}
+		pool.Add(fmt.Sprintf("rsa%d", bits), k)
+	}
 	serverKey, err := keypool.Gen(c.Rng.Fork("server"), "ed25519")
 	if err != nil {
 		panic(err)
@@ -135,6 +149,7 @@ func main() {
 		"FlipByte at EVERY byte offset of the DAG-JSON encoding of one head per key type; truncations, malformed JSON, missing / extra / duplicate fields; HTTP 204/404/500. " +
 		"Each response goes through Decode+Validate, through Syncer.GetHead with expected = the honest signer / another identity / none, and (a subset) through Subscriber.SyncAdChain with latest-sync unset / an older block / the head itself and the peer ID given directly, only inside the address, or not at all. " +
 		"Publisher: every key x topic x root set / unset. " +
+		"Sizes: key types Ed25519 / RSA-2048 / RSA-3072 / RSA-4096 x topics of 0, 1, 100, 700, 1024, 4096, 65536 bytes (and JSON-special, NUL, non-ASCII topics): what NewSignedHead+Encode produce and what a real Publisher serves must Decode, Validate and be accepted by GetHead for the publisher and rejected for another identity (encoded heads from 280 B to 66 KB). " +
 		"Client options: the full scenario table (expected = signer / two other identities / none), unusable responses and two histories through Syncer.GetHead for every non-default ipnisync.NewSync option set (ClientAuthServerPeerID, retrying HTTP client, timeout, combinations). " +
 		"Publisher under concurrency: deterministic schedules with a private key whose Sign waits on a latch: head requests in flight (1..3, released in every order) while SetRoot is called once or twice (incl. to no root); every head request started after a SetRoot returned must serve a verifying head for exactly that root. " +
 		"Histories on ONE Syncer and on ONE Subscriber (16 per key type): a genuine head, then its key+signature on another CID / topic / another identity's head, with rejected responses and further genuine heads in between; every step judged as if it were the first. " +
@@ -148,6 +163,7 @@ func main() {
 	genHistories(c)
 	genOptions(c)
 	genPublisherSchedules(c)
+	genSizes(c)
 }
 
 func peerStr(id peer.ID) string {
@@ -238,6 +254,38 @@ func runReplay(c *vlib.Ctx, r replayT) {
 		}
 		fmt.Printf("  publisher %s topic=%q schedule %s\n", id.ID, r.Topic, schedName(r.Schedule))
 		doPubSched(c, id, r.Topic, roots, r.Schedule)
+	case "size":
+		kb, _ := hex.DecodeString(r.KeyPriv)
+		k, err := ic.UnmarshalPrivateKey(kb)
+		if err != nil {
+			panic(err)
+		}
+		var id *keypool.Identity
+		for _, it := range pool.Ids {
+			if it.Pub.Equals(k.GetPublic()) {
+				id = it
+			}
+		}
+		if id == nil {
+			id = pool.Add(r.KeyType, k)
+		}
+		topic := r.Topic
+		if r.TopicLen > 0 {
+			topic = topicOfLen(r.TopicLen)
+		}
+		if r.TopicHex != "" {
+			tb, _ := hex.DecodeString(r.TopicHex)
+			topic = string(tb)
+		}
+		root, _ := cid.Decode(r.Root)
+		fmt.Printf("  key %s (%s), topic of %d bytes\n", id.ID, id.Type, len(topic))
+		if !utf8.ValidString(topic) {
+			doNonUTF8Topic(c, id, topic, root)
+			st, body := servedHead(id.Priv, topic, root)
+			fmt.Printf("  publisher with topic %q serves status %d: %s\n", topic, st, bytes.TrimSpace(body))
+		} else {
+			doSize(c, id, topic, root, "replay")
+		}
 	case "serve":
 		kb, _ := hex.DecodeString(r.KeyPriv)
 		var root cid.Cid
